@@ -52,6 +52,21 @@ pub fn check_substitution(
     sym: &LabelToSetMap,
     selectors: &[u64],
 ) -> Result<(bool, Vec<String>), Failure> {
+    check_substitution_of(prefix, case, g, f, sym, selectors, &[])
+}
+
+/// `parts`: if non-empty, exactly these sub-formulae are replaced (all of them at once) instead of
+/// the ones picked by the selectors.
+#[allow(clippy::too_many_arguments)]
+pub fn check_substitution_of(
+    prefix: &str,
+    case: &SemCase,
+    g: &biodivine_lib_param_bn::symbolic_async_graph::SymbolicAsyncGraph,
+    f: &F,
+    sym: &LabelToSetMap,
+    selectors: &[u64],
+    parts: &[F],
+) -> Result<(bool, Vec<String>), Failure> {
     let text = f.canon();
     macro_rules! run {
         ($name:expr, $e:expr) => {
@@ -98,8 +113,16 @@ pub fn check_substitution(
     // choose up to 3 disjoint closed sub-formulae
     let cands = closed_candidates(f);
     let mut chosen: Vec<(F, String)> = vec![];
+    for (i, part) in parts.iter().enumerate() {
+        let overlaps = chosen
+            .iter()
+            .any(|(s, _)| s.subformulas().contains(&part) || part.subformulas().contains(&s));
+        if cands.contains(part) && !overlaps {
+            chosen.push((part.clone(), format!("w_{i}")));
+        }
+    }
     for (i, sel) in selectors.iter().enumerate() {
-        if cands.is_empty() {
+        if cands.is_empty() || !parts.is_empty() {
             break;
         }
         let c = &cands[(*sel as usize) % cands.len()];
@@ -154,7 +177,7 @@ pub fn check_substitution(
             case,
         ));
     }
-    classes.push(format!("replacements={}", chosen.len()));
+    classes.push(format!("replacements={}", if chosen.len() >= 8 { ">=8".to_string() } else { chosen.len().to_string() }));
     let occurrences = replaced.count(&|g| matches!(g, F::Wild(w) if w.starts_with("w_")));
     if occurrences > chosen.len() {
         classes.push("same-wild-card-several-times".into());
@@ -176,7 +199,19 @@ fn check(case: &SemCase, net: &Net, f: &F) -> Verdict {
         .and_then(|s| s.as_array())
         .map(|a| a.iter().filter_map(|x| x.as_u64()).collect())
         .unwrap_or_else(|| vec![0, 1, 2]);
-    match check_substitution("C10", case, &net.graph, f, &sym, &selectors) {
+    // "wide" cases: the formula is a combination of up to 12 closed parts, all replaced at once
+    let parts: Vec<F> = case
+        .extra
+        .get("parts")
+        .and_then(|s| s.as_array())
+        .map(|a| {
+            a.iter()
+                .filter_map(|x| x.as_str())
+                .filter_map(|t| crate::refparse::parse(t, true).ok())
+                .collect()
+        })
+        .unwrap_or_default();
+    match check_substitution_of("C10", case, &net.graph, f, &sym, &selectors, &parts) {
         Err(fl) => Verdict::Fail(fl),
         Ok((nontrivial, mut classes)) => {
             classes.extend(net_classes(net));
@@ -226,7 +261,7 @@ impl Property for C10 {
         "C10"
     }
     fn rule(&self) -> String {
-        "random network (plus bundled benchmark models in the thorough tier) x closed plain or extended formula x 1-3 disjoint closed non-atomic strict sub-formulae at random positions (all syntactic occurrences of a chosen sub-formula are replaced by the same wild-card). Oracle: raw and sanitised result of the original == result of the substituted formula with the wild-cards bound to the sub-formulae's raw results; plain formulae through the extended entry points with an empty context == plain entry points. Non-trivial: at least one replacement was made (the replaced sub-formula has >= 1 operator and is a strict sub-formula).".into()
+        "random network (plus bundled benchmark models in the thorough tier) x closed plain or extended formula x 1-3 disjoint closed non-atomic strict sub-formulae at random positions, or (one case in seven) a formula joined from 4-12 closed parts all of which are replaced at once (up to 12 simultaneous wild-cards, some of them bound to equal sets) (all syntactic occurrences of a chosen sub-formula are replaced by the same wild-card). Oracle: raw and sanitised result of the original == result of the substituted formula with the wild-cards bound to the sub-formulae's raw results; plain formulae through the extended entry points with an empty context == plain entry points. Non-trivial: at least one replacement was made (the replaced sub-formula has >= 1 operator and is a strict sub-formula).".into()
     }
     fn assumptions(&self) -> Vec<String> {
         vec!["only closed sub-formulae are replaced; their raw sets come from the dirty entry point on the same graph object".into()]
@@ -235,12 +270,13 @@ impl Property for C10 {
         tier.pick(25_000, 800_000)
     }
     fn strategy(&self, tier: Tier) -> BoxedStrategy<Self::Raw> {
-        (
-            raw_sem(tier.pick(3, 4), 1..=1, 5, tier.pick(18, 24)),
-            any::<bool>(),
-            prop::collection::vec(any::<u16>(), 1..=3),
-        )
-            .boxed()
+        let sels = prop::collection::vec(any::<u16>(), 1..=3);
+        prop_oneof![
+            6 => (raw_sem(tier.pick(3, 4), 1..=1, 5, tier.pick(18, 24)), any::<bool>(), sels.clone()),
+            // wide formulae: 4-12 closed parts joined by binary operators, every part replaced
+            1 => (raw_sem(tier.pick(3, 4), 4..=12, 3, 8), any::<bool>(), sels),
+        ]
+        .boxed()
     }
     fn check_raw(&self, raw: &Self::Raw) -> Verdict {
         let cfg = if raw.1 { FCfg::EXTENDED_WEAK } else { FCfg::PLAIN_WEAK };
@@ -248,8 +284,19 @@ impl Property for C10 {
             Err(r) => Verdict::Discard(r),
             Ok((mut case, fs, net)) => {
                 case.extra = json!({"selectors": raw.2.iter().map(|x| *x as u64).collect::<Vec<_>>()});
-                let _ = gen::idx;
-                check(&case, &net, &fs[0])
+                if fs.len() == 1 {
+                    return check(&case, &net, &fs[0]);
+                }
+                // join the parts (right-nested) by operators derived from the selectors
+                let mut f = fs[fs.len() - 1].clone();
+                for (i, part) in fs.iter().enumerate().rev().skip(1) {
+                    let sel = raw.2[i % raw.2.len()] as usize + i;
+                    let op = [BinOp::And, BinOp::Or, BinOp::Xor, BinOp::Iff, BinOp::Imp, BinOp::EU, BinOp::AW][sel % 7];
+                    f = F::Bin(op, Box::new(part.clone()), Box::new(f));
+                }
+                case.extra["parts"] = json!(fs.iter().map(|p| p.canon()).collect::<Vec<_>>());
+                case.formulas = vec![f.canon()];
+                check(&case, &net, &f)
             }
         }
     }
